@@ -2,6 +2,7 @@ package promise
 
 import (
 	"context"
+	"github.com/aperturerobotics/util/verifhook"
 	"sync/atomic"
 )
 
@@ -47,8 +48,10 @@ func (p *Promise[T]) SetResult(val T, err error) bool {
 	if p.isDone.Swap(true) {
 		return false
 	}
+	verifhook.Point(verifhook.PromiseSetMid, p)
 	p.result = &val
 	p.err = err
+	verifhook.Point(verifhook.PromiseSetMid, p)
 	close(p.done)
 	return true
 }
